@@ -1001,6 +1001,8 @@ def _forced_conflict(draw, base):
         # the everyday conflict: both sides re-executed the same cell (different execution counts, maybe new outputs)
         if c["cell_type"] == "code" and draw(st.booleans()):
             c["execution_count"] = None          # never executed in base
+            if draw(st.booleans()):
+                c["outputs"] = []                # ... so it has no outputs there either
         l["cells"][i] = draw(edit_cell(c, minor, ["rerun"], n_edits=1))
         r["cells"][i] = draw(edit_cell(c, minor, ["rerun"], n_edits=1))
         if c["cell_type"] == "code":
